@@ -18,6 +18,7 @@
       [lw_amount], [total_amount]   amount of a component in a labware / in all labware *)
 From Robo Require Import Prelude Str Wells Utils Labware Tips Records Partition Params Worklist
   Invariants Mixing WellsProofs MixingProofs.
+From Robo Require Import EvoCmd Program MixingRunProofs.
 #[local] Open Scope Q_scope.
 
 (* ------------------------------------------------------------------ C05_combine *)
@@ -536,4 +537,219 @@ Example C05_example_comp_ok :
   map fst [("a", 1 # 4); ("b", 3 # 4)] = ["a"; "b"] /\
   Qle_bool 0 (1 # 4) = true /\ Qle_bool (3 # 4) 1 = true /\
   Qeq_bool (Qsum (map snd [("a", 1 # 4); ("b", 3 # 4)])) 1 = true.
+Proof. vm_compute. repeat split. Qed.
+
+(* ================================================================== C05_run: whole programs *)
+
+(** The per-operation statements above, lifted to arbitrary programs of Model/Program.v
+    ([op], [step], [run]; [run] continues after a rejected call).  Proofs: Proofs/MixingRunProofs.v.
+
+    Classes of operations (defined in Proofs/MixingRunProofs.v, spelled out in [C05_op_classes]):
+      [op_comps_ok o]      every composition the call itself supplies ([OAdd], [ODispense], [OEvoDisp])
+                           is a dict of fractions, [comps_ok]; no condition on any other operation
+      [op_comps_known o]   every such composition is complete, [comps_known] (an addition without
+                           composition is excluded); no condition on any other operation
+      [op_removal o]       [ORemove], [OAspirate], [OEvoAsp]
+      [op_record_only o]   the operations that only write worklist records
+      [op_comp_neutral o]  everything but [OAdd], [ODispense], [OEvoDisp], [OTransfer], [ODistribute]
+      [op_closed o]        everything but [OAdd], [ORemove], [OAspirate], [ODispense], [OEvoAsp],
+                           [OEvoDisp]: liquid neither enters nor leaves the labware set
+      [moves_accepted o e] if [o] is [OTransfer] or [ODistribute] then its outcome [e] is [None]
+    "The state after any prefix" is [fst (run s (firstn n ops))]; for [n >= length ops] this is the
+    final state. *)
+
+Theorem C05_op_classes : forall o : op,
+  op_comps_ok o = match o with
+                  | OAdd _ _ _ _ cs => comps_ok cs
+                  | ODispense _ _ _ _ cs _ => comps_ok cs
+                  | OEvoDisp _ _ _ cs => comps_ok cs
+                  | _ => True
+                  end /\
+  op_comps_known o = match o with
+                     | OAdd _ _ _ _ cs => comps_known cs
+                     | ODispense _ _ _ _ cs _ => comps_known cs
+                     | OEvoDisp _ _ _ cs => comps_known cs
+                     | _ => True
+                     end.
+Proof. exact op_classes_spec. Qed.
+Print Assumptions C05_op_classes.
+
+(* ------------------------------------------------------------------ C05_step_invariant *)
+
+(** one call of any kind, accepted or rejected, keeps the invariant *)
+Theorem C05_step_invariant : forall s o, st_inv s -> op_comps_ok o -> st_inv (fst (step s o)).
+Proof. exact step_inv. Qed.
+Print Assumptions C05_step_invariant.
+
+(** [condense_log] changes no volume and no composition; a record-only call leaves the labware alone *)
+Theorem C05_step_unchanged : forall s,
+  (forall k n l, map lw_comp (st_lw (fst (step s (OCondense k n l)))) = map lw_comp (st_lw s) /\
+                 map lw_vols (st_lw (fst (step s (OCondense k n l)))) = map lw_vols (st_lw s)) /\
+  (forall o, op_record_only o -> st_lw (fst (step s o)) = st_lw s).
+Proof. exact (fun s => conj (step_condense_same s) (fun o H => step_record_only s o H)). Qed.
+Print Assumptions C05_step_unchanged.
+
+(* ------------------------------------------------------------------ C05_run_invariant *)
+
+(** in every state a program reaches, every fraction and every well sum is in [0, 1] *)
+Theorem C05_run_invariant : forall ops s n, st_inv s -> Forall op_comps_ok ops ->
+  let s' := fst (run s (firstn n ops)) in
+  st_inv s' /\
+  forall L, In L (st_lw s') ->
+    (forall k i, 0 <= frac L k i /\ frac L k i <= 1) /\
+    (forall i, (i < n_wells (lw_geom L))%nat -> 0 <= well_sum L i /\ well_sum L i <= 1) /\
+    (forall i, 0 <= vol_at L i).
+Proof. exact run_invariant. Qed.
+Print Assumptions C05_run_invariant.
+
+(* ------------------------------------------------------------------ C05_run_known *)
+
+Theorem C05_step_known : forall s o, st_inv s -> st_known s -> op_comps_ok o -> op_comps_known o ->
+  st_known (fst (step s o)).
+Proof. exact step_known. Qed.
+Print Assumptions C05_step_known.
+
+(** after any sequence of transfers, distributions, removals and dispenses / additions of known
+    composition the fractions of every non-empty well sum to exactly 1 *)
+Theorem C05_run_known : forall ops s n, st_inv s -> st_known s -> Forall op_comps_ok ops ->
+  Forall op_comps_known ops ->
+  let s' := fst (run s (firstn n ops)) in
+  st_known s' /\
+  forall L, In L (st_lw s') ->
+    forall i, (i < n_wells (lw_geom L))%nat -> ~ vol_at L i == 0 -> well_sum L i == 1.
+Proof. exact run_known_all. Qed.
+Print Assumptions C05_run_known.
+
+(** both, starting from labware as the constructors make it (C05_invariant_init) *)
+Theorem C05_run_from_constructors : forall lws w ops n,
+  Forall (fun L => (exists a, mk_labware a = Ok L) \/ (exists a, mk_trough a = Ok L)) lws ->
+  Forall op_comps_ok ops ->
+  let s' := fst (run {| st_lw := lws; st_wl := w |} (firstn n ops)) in
+  (forall L, In L (st_lw s') ->
+     (forall k i, 0 <= frac L k i /\ frac L k i <= 1) /\
+     (forall i, (i < n_wells (lw_geom L))%nat -> 0 <= well_sum L i /\ well_sum L i <= 1) /\
+     (forall i, 0 <= vol_at L i)) /\
+  (Forall op_comps_known ops ->
+   forall L, In L (st_lw s') ->
+     forall i, (i < n_wells (lw_geom L))%nat -> ~ vol_at L i == 0 -> well_sum L i == 1).
+Proof. exact run_from_constructors. Qed.
+Print Assumptions C05_run_from_constructors.
+
+(* ------------------------------------------------------------------ C05_run_removal_neutral *)
+
+(** a removal ([ORemove], [OAspirate], [OEvoAsp]; also [OCondense] and the record-only calls),
+    accepted or rejected, at any position of any program, leaves every composition table as it is;
+    a program without additions, dispenses, transfers and distributions changes none at all *)
+Theorem C05_run_removal_neutral :
+  (forall o, op_removal o -> op_comp_neutral o) /\
+  (forall s o, op_comp_neutral o -> map lw_comp (st_lw (fst (step s o))) = map lw_comp (st_lw s)) /\
+  (forall ops s n o, nth_error ops n = Some o -> op_comp_neutral o ->
+     map lw_comp (st_lw (fst (run s (firstn (S n) ops))))
+     = map lw_comp (st_lw (fst (run s (firstn n ops))))) /\
+  (forall ops s, Forall op_comp_neutral ops ->
+     map lw_comp (st_lw (fst (run s ops))) = map lw_comp (st_lw s)).
+Proof.
+  exact (conj op_removal_neutral
+        (conj step_comp_neutral
+        (conj run_removal_neutral
+              (fun ops s H => run_comp_neutral ops s H)))).
+Qed.
+Print Assumptions C05_run_removal_neutral.
+
+(* ------------------------------------------------------------------ C05_run_conserved *)
+
+(** a program of transfers, distributions, [condense_log] and record-only calls, all accepted,
+    leaves the total amount of every component as it was *)
+Theorem C05_run_conserved : forall ops s k, st_inv s -> Forall op_closed ops ->
+  Forall (fun e => e = None) (snd (run s ops)) ->
+  total_amount (st_lw (fst (run s ops))) k == total_amount (st_lw s) k.
+Proof. exact run_conserved. Qed.
+Print Assumptions C05_run_conserved.
+
+(** only the transfers and distributions need to be accepted *)
+Theorem C05_run_conserved_moves : forall ops s k, st_inv s -> Forall op_closed ops ->
+  Forall2 moves_accepted ops (snd (run s ops)) ->
+  total_amount (st_lw (fst (run s ops))) k == total_amount (st_lw s) k.
+Proof. exact run_conserved_strong. Qed.
+Print Assumptions C05_run_conserved_moves.
+
+(** Conservation does NOT extend to rejected transfers.  The statement
+      forall ops s k, st_inv s -> Forall op_closed ops ->
+        total_amount (st_lw (fst (run s ops))) k == total_amount (st_lw s) k
+    is false: a rejected call keeps the effects it had before the failure (as the library does).
+    Plate "P" with 200 of "stock" in A01, 50 in B01, at most 220 per well; transfer 200 from A01 to
+    B01: A01 is emptied, then B01 overflows, the call raises, and the 200 of "stock" are gone. *)
+Theorem C05_run_conserved_any_refuted :
+  exists s o k, st_inv s /\ op_closed o /\ snd (step s o) = Some EOverflow /\
+    total_amount (st_lw s) k == 200 /\ total_amount (st_lw (fst (step s o))) k == 0.
+Proof. exact rejected_transfer_loses. Qed.
+Print Assumptions C05_run_conserved_any_refuted.
+
+(** what holds whatever the outcomes: no component amount ever grows ... *)
+Theorem C05_run_conserved_any_partial : forall ops s k, st_inv s -> Forall op_closed ops ->
+  total_amount (st_lw (fst (run s ops))) k <= total_amount (st_lw s) k.
+Proof. exact run_no_gain. Qed.
+Print Assumptions C05_run_conserved_any_partial.
+
+(** ... and, per pipetting step of a transfer: either no amount changed, or the step was rejected
+    and exactly the aspirated liquid is missing (removed from the source well, never dispensed) *)
+Theorem C05_exec_step_any : forall s ks kd sw dw v ws kw k, st_inv s ->
+  total_amount (st_lw (fst (exec_step s ks kd sw dw v ws kw))) k == total_amount (st_lw s) k \/
+  snd (exec_step s ks kd sw dw v ws kw) <> None /\
+  exists Ls i, nth_error (st_lw s) ks = Some Ls /\ lw_index Ls sw = Some i /\ 0 <= v /\
+    total_amount (st_lw (fst (exec_step s ks kd sw dw v ws kw))) k
+    == total_amount (st_lw s) k - v * frac Ls k i.
+Proof. exact exec_step_amount_cases. Qed.
+Print Assumptions C05_exec_step_any.
+
+(* ------------------------------------------------------------------ checking the hypotheses *)
+
+(** the hypotheses on caller-supplied compositions are decidable *)
+Theorem C05_comps_check : forall ops,
+  (forallb op_comps_okb ops = true -> Forall op_comps_ok ops) /\
+  (forallb op_comps_knownb ops = true -> Forall op_comps_known ops).
+Proof. exact ops_check. Qed.
+Print Assumptions C05_comps_check.
+
+(* ------------------------------------------------------------------ example *)
+
+(** a program of four calls on the trough and the plate of the examples above: 50 from A01 to B01;
+    25 from trough column 1 into C01 and D01; 50 of a 1:3 mixture of "a" and "b" into A01; 100 out
+    of A01 *)
+Definition ex_prog : list op :=
+  [ OTransfer 1 (A0 "A01") 1 (A0 "B01") (A0 50) (Some "t") SFlush "auto" kw_default;
+    ODistribute 0 1 (A1 ["C01"; "D01"]) ex_dist;
+    ODispense 1 (A0 "A01") (A0 (XQ 50)) (Some "buffer")
+              (Some [Some [("a", 1 # 4); ("b", 3 # 4)]]) kw_default;
+    OAspirate 1 (A0 "A01") (A0 (XQ 100)) None kw_default ].
+
+(** its compositions satisfy the hypotheses of C05_run_invariant and C05_run_known *)
+Example C05_example_prog_ok :
+  forallb op_comps_okb ex_prog = true /\ forallb op_comps_knownb ex_prog = true.
+Proof. vm_compute. split; reflexivity. Qed.
+
+(** all four calls are accepted; afterwards every well of the plate has fractions in [0, 1] that
+    sum to 1, and the aspirate left the fractions of A01 as the dispense made them *)
+Example C05_example_prog :
+  match mk_trough ex_trough_args, mk_labware ex_args with
+  | Ok T, Ok P =>
+      let r := run {| st_lw := [T; P]; st_wl := ex_w0 |} ex_prog in
+      snd r = [None; None; None; None] /\
+      map (fun L => map Qred (lw_vols L)) (st_lw (fst r)) = [[450; 0; 100]; [100; 100; 75; 75]] /\
+      match st_lw (fst r) with
+      | [_; P'] =>
+          map fst (lw_comp P') = ["stock"; "P.B01"; "P.C01"; "P.D01"; "T.column_01"; "a"; "b"] /\
+          map (fun k => map (fun i => Qred (frac P' k i)) [0; 1; 2; 3]%nat) (map fst (lw_comp P'))
+          = [[3 # 4; 1 # 2; 0; 0]; [0; 1 # 2; 0; 0]; [0; 0; 2 # 3; 0]; [0; 0; 0; 2 # 3];
+             [0; 0; 1 # 3; 1 # 3]; [1 # 16; 0; 0; 0]; [3 # 16; 0; 0; 0]] /\
+          map (fun i => Qred (well_sum P' i)) [0; 1; 2; 3]%nat = [1; 1; 1; 1]
+      | _ => False
+      end /\
+      match st_lw (fst (run {| st_lw := [T; P]; st_wl := ex_w0 |} (firstn 3 ex_prog))) with
+      | [_; P3] => map (fun k => Qred (frac P3 k 0)) ["stock"; "a"; "b"] = [3 # 4; 1 # 16; 3 # 16] /\
+                   Qred (vol_at P3 0) = 200
+      | _ => False
+      end
+  | _, _ => False
+  end.
 Proof. vm_compute. repeat split. Qed.
